@@ -245,7 +245,27 @@ var rR26 = RuleRef{Name: "R26", Doc: "no aliasing between keys: a container stor
 										if fp == prm && pi < len(cc.Call.Args) {
 											any = true
 											if !c.freshValue(cc.Call.Args[pi], 0, map[ssa.Value]bool{}) {
-												all = false
+												// a move through the helper: what is handed in was read under a key that the
+												// helper itself removes (moveValue(m, from, to, value) deletes `from`)
+												moved := false
+												if src, unknown := c.getOrigins(cc.Call.Args[pi]); !unknown && len(src) > 0 {
+													moved = true
+													dels := c.dbDeleterParams(fn, 0)
+													for _, sk := range src {
+														found := false
+														for _, di := range dels {
+															if di < len(cc.Call.Args) && canon(cc.Call.Args[di]) == sk {
+																found = true
+															}
+														}
+														if !found {
+															moved = false
+														}
+													}
+												}
+												if !moved {
+													all = false
+												}
 											}
 										}
 									}
